@@ -99,7 +99,7 @@ def random_formula(rng: random.Random, max_symbols=6, max_atoms=40):
     items = []
     total = 0
     for s in hill_order(syms):
-        c = rng.choice([1, 1, 1, 2, 2, 3, 4, 9, 10, 11, 12])
+        c = rng.choice([1, 1, 1, 2, 2, 3, 4, 9, 10, 11, 12, 99, 100, 101] if max_atoms >= 300 else [1, 1, 1, 2, 2, 3, 4, 9, 10, 11, 12])
         if total + c > max_atoms:
             c = 1
         total += c
@@ -164,7 +164,8 @@ def mutate(s: str, rng: random.Random):
         else:
             toks.insert(rng.randint(0, len(toks)), rng.choice(["0", "1", "2"]))
     else:  # boundary classes
-        choice = rng.choice(["selfbond", "dup-attr", "n+1", "repeat-tuple", "trailing-slash", "empty-formula", "swap-formula"])
+        choice = rng.choice(["selfbond", "dup-attr", "dup-attr-same", "n+1", "n+1-first", "repeat-tuple", "trailing-slash", "empty-formula", "swap-formula",
+                             "count-one", "count-zero", "leading-zero", "rotate-formula", "lowercase-tail", "carbon-late"])
         try:
             g = tg.reference_read(s)
         except tg.Reject:
@@ -181,11 +182,40 @@ def mutate(s: str, rng: random.Random):
                 blocks.append((i, [(k, 2), (k, 3)]))
             else:
                 blocks.append((i, [(k, 2)])); blocks.insert(0, (i, [(k, 2)]))
+        elif choice == "dup-attr-same" and n:
+            i = rng.randint(1, n)
+            k = rng.choice(["mass", "rad"])
+            blocks.append((i, [(k, 2), (k, 2)] if rng.random() < 0.5 else [(k, 2), ("rad" if k == "mass" else "mass", 3), (k, 2)]))
         elif choice == "n+1":
             if rng.random() < 0.5:
                 tuples.append((rng.randint(1, max(1, n)), n + 1))
             else:
                 blocks.append((n + 1, [("mass", 2)]))
+        elif choice == "n+1-first":
+            # the out-of-range index as FIRST endpoint, and not in the last / lexicographically largest tuple
+            tuples.insert(0, (n + 1, rng.randint(1, max(1, n))))
+            if n >= 2:
+                tuples.append((n, n - 1))
+        elif choice in ("count-one", "count-zero", "leading-zero") and items:
+            k = rng.randrange(len(items))
+            sym, cnt = items[k]
+            lit = {"count-one": "1", "count-zero": "0", "leading-zero": "0" + str(max(cnt, 2))}[choice]
+            f = "".join(x + (lit if j == k else (str(c) if c > 1 else "")) for j, (x, c) in enumerate(items))
+            rest = emit([], tuples, blocks)
+            return f + rest, f"boundary:{choice}"
+        elif choice == "rotate-formula" and len(items) >= 3:
+            k = rng.randrange(1, len(items))
+            items = items[k:] + items[:k]  # alphabetical-with-carbon and other multi-symbol order slips
+        elif choice == "carbon-late" and any(x == "C" for x, _ in items) and len(items) >= 2:
+            c_item = next(it for it in items if it[0] == "C")
+            others = sorted((it for it in items if it[0] != "C"), key=lambda it: it[0])
+            items = sorted(others + [c_item], key=lambda it: it[0])  # strictly alphabetical although carbon is present
+        elif choice == "lowercase-tail" and items:
+            k = rng.randrange(len(items))
+            sym, cnt = items[k]
+            tail = rng.choice("lsonadeiru")
+            f = "".join((x + tail if j == k and len(x) == 1 else x) + (str(c) if c > 1 else "") for j, (x, c) in enumerate(items))
+            return f + emit([], tuples, blocks), f"boundary:{choice}"
         elif choice == "repeat-tuple" and tuples:
             tuples.append(rng.choice(tuples))
         elif choice == "trailing-slash":
@@ -195,5 +225,7 @@ def mutate(s: str, rng: random.Random):
         elif choice == "swap-formula" and len(items) >= 2:
             i = rng.randrange(len(items) - 1)
             items[i], items[i + 1] = items[i + 1], items[i]
-        return emit(items, tuples, blocks), f"boundary:{choice}"
-    return "".join(toks), kind
+        out = emit(items, tuples, blocks)
+        return out, (f"boundary:{choice}" if out != s else "noop")
+    out = "".join(toks)
+    return out, (kind if out != s else "noop")
